@@ -395,7 +395,10 @@ impl<'a> Hist<'a> {
                 let s = self.tuns[*t].sess;
                 match k {
                     's' => {
-                        self.tuns[*t].origin = None;
+                        // the origin ends its stream (and keeps reading)
+                        if let Some(o) = self.tuns[*t].origin.as_ref() {
+                            let _ = o.shutdown(std::net::Shutdown::Write);
+                        }
                     }
                     'g' => match (&mut self.tuns[*t].io, &mut self.sess[s]) {
                         (TunIo::H2(st), _) => {
